@@ -636,7 +636,10 @@ class PseudoNetCDFFile(PseudoNetCDFSelfReg, object):
             fidx = np.ma.masked_where(~np.isin(val, dimvals), fidx)
 
         if clean == 'mask':
-            outfidx = np.ma.masked_invalid(fidx)
+            # same as masked_invalid, which fails on a masked 0-d array
+            outfidx = np.ma.masked_where(
+                ~np.isfinite(np.ma.getdata(fidx)), fidx
+            )
         else:
             outfidx = fidx
 
